@@ -511,7 +511,7 @@ impl Check for RwCheck {
     }
     fn rule(&self) -> &'static str {
         match self.id {
-            "C03" => "1-2 seeded start terms over LA (arithmetic mod p in {3,5,7} with sum and let binders, uninterpreted constants), 1-6 iterations of apply_rewrites with a seeded subset of the 27 model-valid rules (each rule validated against M_field on 200 random instances at start-up), both substitution methods, optional constant-folding modify hook, probes from inside appliers and Analysis::make; after every iteration every e-node of every class with at most 3 slots is evaluated against its class table under all environments and two assignments of its redundant slots, every inserted term is evaluated directly; non-trivial = at least one iteration changed the e-graph and at least 50 e-node evaluations were compared; distinct = distinct canonical key",
+            "C03" => "1-2 seeded start terms over LA (arithmetic mod p in {3,5,7}, a summation binder over {0,1}, a let binder, a weighted sum with a child before its binder, uninterpreted constants), 1-6 iterations of apply_rewrites with a seeded subset of the 35 model-valid rules (incl. side conditions through Rewrite::new_if, two eq-conditioned rules with paired true/false instances) (each rule validated against M_field on 200 random instances at start-up), both substitution methods, optional constant-folding modify hook, probes from inside appliers and Analysis::make; after every iteration every e-node of every class with at most 3 slots is evaluated against its class table under all environments and two assignments of its redundant slots, every inserted term is evaluated directly; non-trivial = at least one iteration changed the e-graph and at least 50 e-node evaluations were compared; distinct = distinct canonical key",
             "C14" => "seeded LA histories of insertions, raw unions (runs without modify) and rewrite iterations with the simulator's analysis (min size, min depth, constant value mod p with optional modify hook); after every operation every live class's datum is recomputed as the join of make over its e-nodes, size is compared with value-iteration min cost, constants with the class's model table, equal invocations share one datum; non-trivial = at least one operation changed the e-graph after the first insertion and at least 10 classes were recomputed; distinct = distinct canonical key",
             "C11R" => "the C03 workload executed twice with identical knobs but different slot namings; the naming-independent fingerprint (node count, live classes, slot and symmetry sums, per-class (slots, nodes) multiset, equality partition and eq-matrix over all inserted terms), the analysis data and the best extraction cost of every inserted term must agree after every operation; non-trivial = at least one iteration changed the e-graph; distinct = distinct canonical key",
             "C06R" => "the C03 workload (rewriting over LA: cyclic classes, classes whose cheapest node has redundant slots); after every rewrite iteration an Extractor for one of three strictly monotone cost functions is built and every live class with a finite term is extracted under three invocations (identity, renamed, own slots permuted) and checked as in C06; non-trivial = at least one iteration changed the e-graph and 3 extractions were checked; distinct = distinct canonical key",
